@@ -381,9 +381,14 @@ _LENGTHS = [0, 1, 2, 126, 127, 128, 129, 16383, 16384, 32767]
 
 
 def _text_of_len(n: int, flavour: int) -> bytes:
-    unit = [b"a", "å".encode(), "€".encode(), "\U0001f600".encode()][flavour]
+    unit = [b"a", "å".encode(), "€".encode(), "\U0001f600".encode(), "\ufeff".encode()][flavour]
     body = unit * (n // len(unit))
     return body + b"z" * (n - len(body))
+
+
+# strings whose FIRST (or last) code point is one that codecs and normalisers like to treat specially: byte order mark,
+# NUL, combining mark, line separator, noncharacter, the replacement character
+_SPECIAL_TEXTS = ["\ufeffkio", "\ufeff", "\ufeff\ufeff", "k\ufeffio", "kio\ufeff", "\x00kio", "\u0301e", "\u2028x", "\ufffex", "\ufffd", "\u00a0 x \u00a0", "\U0010ffff"]
 
 
 def section_strings(t: Tally, ctx: Ctx):
@@ -391,7 +396,7 @@ def section_strings(t: Tally, ctx: Ctx):
     from kio.serial.errors import OutOfBoundValue, UnexpectedNull
 
     for n in _LENGTHS + [32768, 70000]:
-        for flavour in range(4):
+        for flavour in range(5):
             raw = _text_of_len(n, flavour)
             text = raw.decode()
             compact = uvarint(n + 1) + raw
@@ -421,6 +426,13 @@ def section_strings(t: Tally, ctx: Ctx):
                         pass
                     except Exception as e:
                         t.fail("legacy_string:oversize-wrong-error", f"{w.__name__}(<{n} bytes>) raised {e!r}, documented is OutOfBoundValue", {"fn": "legacy_string", "len": n})
+    for text in _SPECIAL_TEXTS:
+        raw = text.encode()
+        compact, legacy_s = uvarint(len(raw) + 1) + raw, be(len(raw), 2, True) + raw
+        check_codec(t, "compact_string", W.write_compact_string, R.read_compact_string, text, compact, text, True)
+        check_codec(t, "compact_string_nullable", W.write_nullable_compact_string, R.read_compact_string_nullable, text, compact, text, True)
+        check_codec(t, "legacy_string", W.write_legacy_string, R.read_legacy_string, text, legacy_s, text, True)
+        check_codec(t, "legacy_string_nullable", W.write_nullable_legacy_string, R.read_nullable_legacy_string, text, legacy_s, text, True)
     # null forms
     nulls = [
         ("compact_string_nullable", W.write_nullable_compact_string, R.read_compact_string_nullable, b"\x00"),
@@ -470,7 +482,8 @@ def section_strings(t: Tally, ctx: Ctx):
     # large bytes values: sizes at which the compact length prefix changes width (length + 1 = 2^21, 2^28) and exact
     # multiples of block sizes between 64 KiB and 48 MiB (chunked reads / writes); bytes and records fields may hold up
     # to 2^31 - 1 bytes.  Compared without rendering the payload.
-    big = [65535, 65536, 2097150, 2097151, 2097152, 2097153, 1 << 20, 1 << 22, 1 << 23, 3 << 22, 1 << 24, (1 << 24) + 1, 1 << 25, 3 << 24]
+    big = [65535, 65536, 2097150, 2097151, 2097152, 2097153, 1 << 20, 1 << 22, 1 << 23, 3 << 22, 1 << 24, (1 << 24) + 1, 1 << 25, 3 << 24,
+           1000000, 1048588, 5 << 20, 10 << 20, 10000000, 20 << 20, 30 << 20, 50 << 20]  # decimal / Kafka configuration sizes
     if not ctx.quick:
         big += [(1 << 28) - 2, (1 << 28) - 1, 1 << 26, 5 << 24]
     for n in big:
